@@ -48,6 +48,9 @@ struct CaseReader {
     delivered: u64,
     fail_at: Option<u64>,
     fail_kind: std::io::ErrorKind,
+    // the failure is reported once; the reads after it see the end of the input (a reset connection, then EOF)
+    fail_once: bool,
+    failed: bool,
     interrupts: u64,
     endless: Option<Vec<u8>>,
     endless_off: usize,
@@ -65,6 +68,12 @@ impl Read for CaseReader {
                 if self.interrupts > 0 {
                     self.interrupts -= 1;
                     return Err(std::io::Error::new(std::io::ErrorKind::Interrupted, "intr"));
+                }
+                if self.fail_once {
+                    if self.failed {
+                        return Ok(0);
+                    }
+                    self.failed = true;
                 }
                 return Err(std::io::Error::new(self.fail_kind, "injected read failure"));
             }
@@ -208,6 +217,7 @@ fn run_case(case: &Value, tmpdir: &str) -> Value {
         let mut chunks = vec![];
         let mut fail_at = None;
         let mut fail_kind = std::io::ErrorKind::Other;
+        let mut fail_once = false;
         let mut interrupts = 0;
         let mut endless = None;
         let mut budget = 1 << 20;
@@ -216,6 +226,7 @@ fn run_case(case: &Value, tmpdir: &str) -> Value {
                 chunks.push(unhex(c.as_str().unwrap_or("")));
             }
             fail_at = i["fail_at"].as_u64();
+            fail_once = i["fail_once"].as_bool().unwrap_or(false);
             // every kind is a failed read (std::io::Bytes retries Interrupted only)
             fail_kind = match i["fail_kind"].as_str().unwrap_or("other") {
                 "wouldblock" => std::io::ErrorKind::WouldBlock,
@@ -237,6 +248,8 @@ fn run_case(case: &Value, tmpdir: &str) -> Value {
             delivered: 0,
             fail_at,
             fail_kind,
+            fail_once,
+            failed: false,
             interrupts,
             endless,
             endless_off: 0,
